@@ -602,6 +602,8 @@ PROTOTYPES = {
         {"t": "SelectableIcon", "text": "icon", "cpos": 1},
         {"t": "NoCacheText", "text": "no cache text here"},
         {"t": "AttrMap", "w": {"t": "Text", "text": "mapped", "align": "left", "wrap": "space"}, "am": "a", "fm": "b"},
+        {"t": "AttrWrap", "w": {"t": "Text", "text": "wrapped", "align": "left", "wrap": "space"}, "am": "a", "fm": "b"},
+        {"t": "AttrWrap", "w": {"t": "Button", "label": "wrapped button"}, "am": "a", "fm": None},
         {"t": "Padding", "w": {"t": "Text", "text": "padded text", "align": "left", "wrap": "space"}, "align": "left", "width": 8, "left": 1, "right": 1},
         {"t": "LineBox", "w": {"t": "Text", "text": "boxed", "align": "left", "wrap": "space"}, "title": "T"},
         {"t": "BoxAdapter", "w": {"t": "Filler", "w": {"t": "Text", "text": "fill", "align": "left", "wrap": "space"}, "valign": "top"}, "h": 3},
@@ -674,7 +676,7 @@ def directed_cases(mode, quick=False, seed=0):
                     inputs = inputs[(seed + len(cases)) % 3 :: 3]
                 for j, inp in enumerate(inputs):
                     look = [[*o, "B"] for o in warm0] if j % 2 else warm0
-                    cases.append({"mode": mode, "kind": rkind, "recipe": recipe, "sizes": sizes, "ops": [*warm0, inp, *look]})
+                    cases.append({"mode": mode, "kind": rkind, "recipe": recipe, "sizes": sizes, "ops": [*warm0, inp, *look], "stratum": f"input:{recipe['t']}:{inp[0]}:{inp[2] if inp[0] == 'key' else ''}"})
                 for idx, wd in enumerate(ws):
                     for trial in range(60):
                         m = T.propose(random.Random(f"{trial}:{idx}"), wd)
@@ -683,11 +685,16 @@ def directed_cases(mode, quick=False, seed=0):
                         key = (idx, m[0], json.dumps(m[1:2]))
                         if key in seen:
                             continue
-                        if quick and sum(1 for k2 in seen if k2[:2] == key[:2]) >= 2:
+                        named = m[0] in ("raising", "setprop")  # the second element names the mutator
+                        if quick and not named and sum(1 for k2 in seen if k2[:2] == key[:2]) >= 2:
                             continue
                         seen.add(key)
                         warm = [["render", 0, 1], ["render", 0, 0], ["render", 1, 1]]
-                        if len(seen) % 3 == 0:
+                        if m[0] == "raising":
+                            # the change is half done when the handler raises: look at another size first
+                            # (recomputes what the widget keeps per size), then at the sizes rendered before
+                            ops = [warm[0], warm[1], ["mut", idx, m], warm[2], warm[0], warm[1], ["rows", 0, 0]]
+                        elif len(seen) % 3 == 0:
                             # a render at the other size between the change and the look (state set by render)
                             ops = [warm[0], ["mut", idx, m], warm[2], warm[0], warm[1]]
                         else:
@@ -696,8 +703,31 @@ def directed_cases(mode, quick=False, seed=0):
                             # look in order B: cached render first (sees changes that only left pending state)
                             k_mut = next(i for i, o in enumerate(ops) if o[0] == "mut")
                             ops = ops[: k_mut + 1] + [[*o, "B"] if o[0] == "render" else o for o in ops[k_mut + 1 :]]
-                        cases.append({"mode": mode, "kind": rkind, "recipe": recipe, "sizes": sizes, "ops": ops})
+                        stratum = f"{type(wd).__name__}.{m[0]}" + (f"/{m[1]}" if named else "") + f"@{recipe['t']}"
+                        cases.append({"mode": mode, "kind": rkind, "recipe": recipe, "sizes": sizes, "ops": ops, "stratum": stratum})
     return cases
+
+
+def stratified(cases, seed):
+    """order: one case of every stratum (mutator of a widget class under a root class / input kind on a root
+    class) first, then a second one of each, ... so that a run that cannot finish the directed core has
+    still exercised every mutator kind; the choice inside a stratum rotates with the seed"""
+    groups = {}
+    for c in cases:
+        groups.setdefault(c.get("stratum", ""), []).append(c)
+    r = random.Random(f"C06-directed:{seed}")
+    keys = sorted(groups)
+    for k in keys:
+        r.shuffle(groups[k])
+    out = []
+    depth = 0
+    while True:
+        layer = [groups[k][depth] for k in keys if len(groups[k]) > depth]
+        if not layer:
+            return out
+        r.shuffle(layer)
+        out += layer
+        depth += 1
 
 
 def regression_cases(mode):
@@ -763,8 +793,9 @@ def run(ctx):
         # ---- directed core: every mutator kind of every prototype widget, alone and under standard parents
         set_mode("utf8")
         dcases = directed_cases("utf8", quick=ctx.quick, seed=ctx.seed)
-        # shuffled (by seed) so that a run that cannot finish them all still samples every kind evenly
-        random.Random(f"C06-directed:{ctx.seed}").shuffle(dcases)
+        # one case per stratum first (see stratified) so that a run that cannot finish them all still covers every kind
+        ctx.extra["directed_strata"] = len({c["stratum"] for c in dcases})
+        dcases = stratified(dcases, ctx.seed)
         dcases = regression_cases("utf8") + dcases
         ctx.extra["directed_cases_total"] = len(dcases)
         done_all = True
